@@ -24,7 +24,7 @@ def _remote(c, n, replay=None):
 
 def run(c):
     c.proofs("theories/Properties/C03.v", clean=(c.tier == "thorough"))
-    c.translate(['TieMbox', 'TieRecvLock'])  # T1: every priority switch selects the queue of the model's class_of; Lock/Unlock are one swap each
+    c.translate(['TieMbox', 'TieRecvLock', 'TieOptions'])  # T1: every priority switch selects the queue of the model's class_of; Lock/Unlock are one swap each
     quick = c.tier == "quick"
     nq, npk = ("600", "250") if quick else ("20000", "4000")
     if c.replay:
